@@ -304,6 +304,63 @@ SITES = [
 ]
 
 
+def _stores_into(attr_or_name):
+    """sink finder: the value stored by `<X>[k] = value` where X is the local / attribute named `attr_or_name`"""
+    def find(fn):
+        out = []
+        for n in ast.walk(fn):
+            if isinstance(n, ast.Assign) and len(n.targets) == 1 and isinstance(n.targets[0], ast.Subscript):
+                base = n.targets[0].value
+                nm = base.id if isinstance(base, ast.Name) else (base.attr if isinstance(base, ast.Attribute) else None)
+                if nm == attr_or_name:
+                    out.append((n.value, n))
+        return sorted(out, key=lambda x: (x[1].lineno, x[1].col_offset))
+    return find
+
+
+def _rels_reads(ordinal_of_interest):
+    """sink finder: the argument of the k-th `read_xml_root(...)` call of the function (source order)"""
+    def find(fn):
+        calls = sorted([n for n in ast.walk(fn) if isinstance(n, ast.Call) and isinstance(n.func, ast.Attribute) and n.func.attr == "read_xml_root" and n.args],
+                       key=lambda n: (n.lineno, n.col_offset))
+        return [(calls[ordinal_of_interest].args[0], calls[ordinal_of_interest])] if len(calls) > ordinal_of_interest else []
+    return find
+
+
+def _arg_of_store_value(attr):
+    """sink finder: `self.<attr>[k] = self.read_xml_root(E)`: the expression E"""
+    def find(fn):
+        out = []
+        for (v, n) in _stores_into(attr)(fn):
+            if isinstance(v, ast.Call) and isinstance(v.func, ast.Attribute) and v.func.attr == "read_xml_root" and v.args:
+                out.append((v.args[0], n))
+        return out
+    return find
+
+
+def _has_dir(name):
+    return lambda c: z3.Contains(c.args[name].t, z3.StringVal("/"))
+
+
+SHEET_PART = z3.Function("xlsx_sheet_part_of_tab", z3.IntSort(), z3.StringSort())     # part name of the k-th sheet (workbook.xml + its relationships)
+
+SITES += [
+    # presentation -> slide relationship targets: lost slides lose their pictures
+    dict(rel=PPTX, fn="_PptxContext._compute_slide_order", sink=_stores_into("rels_map"), keys=("target",), base=("const", "ppt"), label="slide-part",
+         why="source part = ppt/presentation.xml"),
+    # relationship part of a slide / a drawing / a sheet: <dir>/_rels/<name>.rels (OPC)
+    dict(rel=PPTX, fn="_PptxContext._load_xml_files", sink=_arg_of_store_value("_slide_rels_roots"), keys=("target",), need_target=False, extra=["slide_path"],
+         spec=lambda c: SP.RELS_PART(c.args["slide_path"].t), requires=_has_dir("slide_path"), label="slide-relationship-part",
+         why="relationship part of the slide part"),
+    dict(rel=XLSX, fn="_extract_images_from_zip", sink=_rels_reads(1), keys=("target",), need_target=False, extra=["drawing_path"],
+         spec=lambda c: SP.RELS_PART(c.args["drawing_path"].t), requires=_has_dir("drawing_path"), label="drawing-relationship-part",
+         why="relationship part of the drawing part"),
+    dict(rel=XLSX, fn="_extract_images_from_zip", sink=_rels_reads(0), keys=("target",), need_target=False, extra=["sheet_idx"], int_params=("sheet_idx",),
+         spec=lambda c: SP.RELS_PART(SHEET_PART(c.args["sheet_idx"].t)), label="sheet-relationship-part",
+         why="relationship part of the part that workbook.xml names for the k-th sheet"),
+]
+
+
 def _unvalidated_to_unknown(o):
     """A solver model of a VC over uninterpreted spec functions (SEGS / FOLD / JOINS / jpeg chain) is not a refutation
     (DESIGN 2.5.3b): the obligation stays open and goes to the native small-scope search (REPLAY_UNKNOWN)."""
@@ -335,32 +392,47 @@ def run_site(site, repo, reg=None, uni=None):
         for c in contracts(reg):
             reg.add(c)
         uni = Universe(repo)
-    sinks = F.method_calls(fn, site["sinks"])
+    if "sink" in site:
+        sinks = site["sink"](fn)            # [(expression, node at which it is evaluated)]
+    else:
+        sinks = [(call.args[0], call) for call in F.method_calls(fn, site["sinks"])]
     obls = []
     if not sinks:
-        obls.append(ground_obligation(base_id, False, f"no {site['sinks']} call found: shape not recognised", rel, kind="resolution", definite=False))
+        obls.append(ground_obligation(base_id, False, f"no {site.get('sinks', 'sink')} found: shape not recognised", rel, kind="resolution", definite=False))
     keys = site["keys"]
-    for k, call in enumerate(sinks):
+    for k, (sink_expr, call) in enumerate(sinks):
         oid = f"{base_id}-{k}" if len(sinks) > 1 else base_id
-        extra = [site["base"][1]] if site["base"][0] in ("dirname", "field") else []
-        f, sl = F.build_slice_function(fn, call.args[0], call, lambda e: F.is_lookup_of(e, keys), extra_params=extra, extra_sources=extra)
+        extra = list(site.get("extra", [])) + ([site["base"][1]] if site.get("base", ("",))[0] in ("dirname", "field") else [])
+        f, sl = F.build_slice_function(fn, sink_expr, call, lambda e: F.is_lookup_of(e, keys), extra_params=extra, extra_sources=extra)
         if f is None:
             obls.append(ground_obligation(oid, False, f"slice not computable: {sl.why}", rel, kind="resolution", definite=False))
             continue
-        if "__target" not in sl.sources:
+        if "__target" not in sl.sources and site.get("need_target", True):
             obls.append(ground_obligation(oid, False, "the name read does not depend on a relationship target / href", rel, kind="resolution", definite=False))
             continue
+        # the slice equates a value read from a local lookup table with the expression stored into it: valid only if the table
+        # cannot hold entries of other source parts (relationship ids are scoped by the part that owns the .rels)
+        for (mname, rnode, snode) in sl.map_flows:
+            ok, why = F.table_scope(fn, F.parent_map(fn), mname, rnode, snode)
+            g = ground_obligation(f"{oid}.lookup-table-scope", bool(ok), why, rel, kind="resolution", definite=False)
+            g["function"] = f"{rel}::{fname}"
+            obls.append(g)
         makers = site.get("makers", {})
         params = []
         for a in f.args.args:
             m = makers.get(a.arg)
             if m is not None and m[0] == "obj":
                 params.append((a.arg, p_obj(m[1], {fld: p_str() for fld in m[2]})))
+            elif a.arg in site.get("int_params", ()):
+                from pyvc.verify import p_int
+                params.append((a.arg, p_int(0, None)))
             else:
                 params.append((a.arg, p_str()))
-        b = site["base"]
+        b = site.get("base", ("spec",))
 
         def returns(c, b=b):
+            if "spec" in site:
+                return VStr(site["spec"](c))
             t = c.args["__target"].t
             if b[0] == "const":
                 base = z3.StringVal(b[1])
@@ -369,7 +441,7 @@ def run_site(site, repo, reg=None, uni=None):
             else:
                 base = c.entry.obj(c.args[b[1]].ref).data[b[2]].t
             return VStr(SP.RESOLVE(base, t))
-        c = FnContract(target=f"{rel}::{fname}", params=params, returns=returns, raises=[Raises("Exception", sub=True)])
+        c = FnContract(target=f"{rel}::{fname}", params=params, returns=returns, requires=site.get("requires"), raises=[Raises("Exception", sub=True)])
         ex = C14Executor(mod, reg, uni)
         ex.contract = c
         ex.oid_prefix = "slice"
@@ -482,7 +554,7 @@ def _pixel_from_sniffer(ck, sites, payload_kw, label="size-sniffed-from-the-payl
                 bad.append(f"line {c.lineno}: {dim}={ast.unparse(v) if v is not None else 'missing'}")
                 continue
             defs = [b for b in __import__('contracts.c14_flow', fromlist=['bindings_of']).bindings_of(ck.fn, v.id)]
-            sn = [b for b in defs if b.kind == "other" and isinstance(b.node, ast.Assign) and isinstance(b.node.value, ast.Call)
+            sn = [b for b in defs if b.kind in ("other", "unpack") and isinstance(b.node, ast.Assign) and isinstance(b.node.value, ast.Call)
                   and dotted(b.node.value.func) == "_get_image_pixel_dimensions"]
             others = [b for b in defs if b not in sn]
             if not sn:
@@ -641,6 +713,20 @@ def image_sites(repo, tier):
                                                and reaching(ck.fn, ck.pm, "slide_number", c) is not None and reaching(ck.fn, ck.pm, "slide_number", c).kind == "param")]
         ck.add("unit", "image-carries-the-number-of-its-slide", not bad and bool(sites), f"lines {bad}")
         done(ck)
+    # ---- pptx: the relationship table handed to the slide processor is the one of that slide's own .rels part ----
+    ck = mk(PPTX, "_PptxContext.get_slide_relationships")
+    if ck:
+        _per_part_table(ck)
+        done(ck)
+    ck = mk(PPTX, "_process_slide_from_context")
+    if ck:
+        calls = [n for n in ast.walk(ck.fn) if isinstance(n, ast.Call) and isinstance(n.func, ast.Attribute) and n.func.attr == "get_slide_relationships"]
+        ok = len(calls) == 1 and len(calls[0].args) == 1 and isinstance(calls[0].args[0], ast.Name) and \
+            reaching(ck.fn, ck.pm, calls[0].args[0].id, calls[0]) is not None and reaching(ck.fn, ck.pm, calls[0].args[0].id, calls[0]).kind == "param" and \
+            calls[0].args[0].id == ck.fn.args.args[1].arg
+        ck.add("resolution", "relationships-of-the-slide-being-processed", ok, "" if ok else "get_slide_relationships is not called once with the slide path parameter",
+               definite=False)
+        done(ck)
     # ---- xlsx ----
     ck = mk(XLSX, "_extract_images_from_zip")
     if ck:
@@ -710,6 +796,58 @@ def image_sites(repo, tier):
         _pdf(ck)
         done(ck)
     return {"obligations": obls, "functions": fns, "undecided": und}
+
+
+def _per_part_table(ck):
+    """`get_slide_relationships(slide_path)`: the table returned is built in this call from the relationship root stored for the SAME
+    path, and cached under the same path (relationship ids are scoped by the part that owns the .rels)."""
+    from contracts.c14_flow import reaching
+    fn = ck.fn
+    par = fn.args.args[1].arg if len(fn.args.args) > 1 else None
+    bad = []
+    rets = [n for n in ast.walk(fn) if isinstance(n, ast.Return) and n.value is not None]
+    fresh = set()
+    for r in rets:
+        v = r.value
+        if isinstance(v, ast.Name):
+            b = reaching(fn, ck.pm, v.id, r)
+            if b is None or b.kind != "assign" or not (isinstance(b.value, ast.Dict) and not b.value.keys):
+                bad.append(f"line {r.lineno}: the returned table {v.id} is not created empty in this call")
+            else:
+                fresh.add(v.id)
+        elif isinstance(v, ast.Subscript) and isinstance(v.slice, ast.Name) and v.slice.id == par:
+            pass        # cached table of the same path
+        else:
+            bad.append(f"line {r.lineno}: returns {ast.unparse(v)[:50]}")
+    for n in ast.walk(fn):
+        if isinstance(n, ast.Subscript) and isinstance(n.value, ast.Attribute) and n.value.attr.startswith("_slide_rel"):
+            if not (isinstance(n.slice, ast.Name) and n.slice.id == par):
+                bad.append(f"line {n.lineno}: {ast.unparse(n)[:50]} is not keyed by the slide path")
+        if isinstance(n, ast.Call) and isinstance(n.func, ast.Attribute) and n.func.attr == "get" and isinstance(n.func.value, ast.Attribute) \
+                and n.func.value.attr.startswith("_slide_rel"):
+            if not (n.args and isinstance(n.args[0], ast.Name) and n.args[0].id == par):
+                bad.append(f"line {n.lineno}: {ast.unparse(n)[:50]} is not keyed by the slide path")
+        if isinstance(n, ast.Compare) and any(isinstance(c, ast.Attribute) and c.attr.startswith("_slide_rel") for c in n.comparators):
+            if not (isinstance(n.left, ast.Name) and n.left.id == par):
+                bad.append(f"line {n.lineno}: {ast.unparse(n)[:50]} does not test the slide path")
+    # entries: table[id] = {"target": rel["target"], ...} with rel ranging over parse_relationships(<root looked up by the path>)
+    stores = [n for n in ast.walk(fn) if isinstance(n, ast.Assign) and isinstance(n.targets[0], ast.Subscript) and isinstance(n.targets[0].value, ast.Name)
+              and n.targets[0].value.id in fresh]
+    ok_store = False
+    for st in stores:
+        if isinstance(st.value, ast.Dict):
+            d = {k.value: v for k, v in zip(st.value.keys, st.value.values) if isinstance(k, ast.Constant)}
+            tv = d.get("target")
+            if isinstance(tv, ast.Subscript) and isinstance(tv.value, ast.Name) and isinstance(tv.slice, ast.Constant) and tv.slice.value == "target" \
+                    and isinstance(st.targets[0].slice, ast.Name):
+                kb = reaching(fn, ck.pm, st.targets[0].slice.id, st)
+                if kb is not None and kb.kind == "assign" and ast.unparse(kb.value) == f"{tv.value.id}['id']":
+                    ok_store = True
+                    continue
+        bad.append(f"line {st.lineno}: entry {ast.unparse(st)[:70]}")
+    if not rets or par is None or not stores:
+        return ck.unknown("resolution", "relationship-table-of-the-given-part", "shape not recognised")
+    ck.add("resolution", "relationship-table-of-the-given-part", not bad and ok_store, "; ".join(bad), definite=False)
 
 
 def _payload_only(ck, sites, payload_kw, reads):
@@ -852,8 +990,18 @@ VIEWS = {
 }
 
 
+# document view only (the units of these types carry no images of their own, or are heading sections):
+NESTED_IMAGES = {"PptContent": ("slides", "PptSlideContent", "PptImage")}
+FLAT_IMAGES = {"DocContent": "DocImage", "DocxContent": "DocxImage", "XlsContent": "XlsImage", "OdgContent": "OpenDocumentImage",
+               "OdtContent": "OpenDocumentImage", "RtfContent": "RtfImage", "EpubContent": "EpubImage"}
+
+
 def _install_views():
     E = C14Executor
+    for cls, (lf, ecls, icls) in NESTED_IMAGES.items():
+        E.ZFIELDS[(ecls, "images")] = icls
+    for cls, icls in FLAT_IMAGES.items():
+        E.ZFIELDS[(cls, "images")] = icls
     for cls, (lf, ecls, icls, has_tables, _kw) in VIEWS.items():
         E.ZFIELDS[(ecls, "images")] = icls
         if has_tables:
@@ -906,10 +1054,44 @@ def view_contracts():
     for cls in VIEWS:
         v = ViewSpec(cls)
         out.extend(_view_contracts(v))
+    for cls, (lf, ecls, icls) in NESTED_IMAGES.items():
+        VIEWS[cls] = (lf, ecls, icls, True, ())
+        try:
+            out.append(_view_contracts(ViewSpec(cls), images_only=True)[0])
+        finally:
+            del VIEWS[cls]
+    for cls, icls in FLAT_IMAGES.items():
+        out.append(_flat_images_contract(cls, icls))
     return out
 
 
-def _view_contracts(v: ViewSpec):
+def _flat_images_contract(cls, icls):
+    """iterate_images() of a type with one document-level image list yields exactly that list, in order."""
+    IS = z3.SeqSort(ext_sort(icls))
+
+    def whole(me):
+        return X.zfield(cls, "images", icls)(me)
+
+    def req(c):
+        c.ex.yz_init(c.st, {"img": z3.Empty(IS)})
+        c.ex.yz_init(c.entry, {"img": z3.Empty(IS)})
+        return z3.BoolVal(True)
+
+    def inv(lc):
+        t = lc.ex.zterm(lc.st, lc.seq) if lc.seq is not None else None
+        if t is None:
+            return z3.BoolVal(False)
+        lc.st.assume(prefix_ext(t, lc.i))
+        return z3.And(lc.st.ghost["YZ"]["img"] == z3.SubSeq(t, 0, lc.i), t == whole(lc.entry.lookup("self").t))
+    tgt = f"{DT}::{cls}.iterate_images"
+    C14Executor.VIEW[tgt] = "images"
+    return FnContract(target=tgt, params=[("self", p_ext(cls))], generator=True, requires=req,
+                      ensures=[("document-images-are-the-image-list-in-order", lambda c: c.st.ghost["YZ"]["img"] == whole(c.args["self"].t))],
+                      raises=[], loops={0: LoopSpec(inv=inv, label="images")},
+                      note="iterate_images() yields every entry of self.images, in order, nothing else")
+
+
+def _view_contracts(v: ViewSpec, images_only=False):
     cls = v.cls
     params = [("self", p_ext(cls))]
 
@@ -948,6 +1130,8 @@ def _view_contracts(v: ViewSpec):
         raises=[], loops={0: LoopSpec(inv=img_outer, label="elements"), 1: LoopSpec(inv=img_inner, label="images-of-element")},
         note="iterate_images() yields concat(e.images for e in self.<elements>)")]
     C14Executor.VIEW[out[-1].target] = "images"
+    if images_only:
+        return out
 
     # ---- iterate_tables ----
     def tab_outer(lc):
@@ -1026,7 +1210,32 @@ def sniffers_agree(repo, tier):
     return {"obligations": obls, "functions": []}
 
 
-EXTRA = [_site_runner(i) for i in range(len(SITES))] + [image_sites, sniffers_agree]
+def seq_lemmas(repo, tier):
+    """Sequence lemmas used (assumed) by the inner-loop invariants of the views: t[:j+1] == t[:j] ++ [t[j]], t[:len t] == t, t[:0] == [].
+    Discharged by cvc5 first (0.02 s each; z3's sequence solver needs between 0.05 s and its timeout on the same formula), z3 as fallback."""
+    from pyvc import solve
+    import time
+    out = []
+    jj = z3.Int("j")
+    for sort in sorted({v[2] for v in VIEWS.values()} | {v[2] for v in NESTED_IMAGES.values()} | set(FLAT_IMAGES.values()) | {TABLE}):
+        t = z3.Const("t", z3.SeqSort(ext_sort(sort)))
+        parts = prefix_ext(t, jj).children()
+        for label, goal in ((f"prefix-extension-{sort.strip('_')}", parts[0]), (f"prefix-whole-and-empty-{sort.strip('_')}", z3.And(parts[1:]))):
+            t0 = time.time()
+            sv = z3.Solver()
+            sv.add(z3.Not(goal))
+            smt2 = "\n".join(l for l in sv.to_smt2().splitlines() if not l.startswith("(check-sat)") and not l.startswith("(set-info") and not l.startswith("; benchmark"))
+            r = solve._cvc5(smt2, 10.0)
+            backend, status = "cvc5", ("proved" if r == "unsat" else "unknown")
+            if status != "proved":
+                rr = solve.check_vc([], goal, None, want_model=False)
+                backend, status = rr.backend, ("proved" if rr.status == "proved" else "unknown")
+            out.append({"id": f"C14/data_types.py::sequences/lemma#{label}", "kind": "lemma", "status": status, "vcs": 1, "seconds": round(time.time() - t0, 4),
+                        "backends": {backend: 1}, "witness": None, "reason": "", "loc": "spec"})
+    return {"obligations": out, "functions": []}
+
+
+EXTRA = [_site_runner(i) for i in range(len(SITES))] + [image_sites, sniffers_agree, seq_lemmas]
 
 
 def lemmas():
@@ -1042,12 +1251,6 @@ def lemmas():
         return z3.Implies(z3.And(x >= 0, x + 10 > N), j.KIND(x) == SP.OTHER)
     out = [("C14/image_utils.py::jpeg-chain/lemma#no-frame-header-in-the-last-9-bytes",
             [N >= 0, X.byte_range(D), o >= 0, j.defn(o), ih(o + 1), ih(o + 2 + L)], ih(o))]
-    jj = z3.Int("j")
-    for sort in sorted({v[2] for v in VIEWS.values()} | {TABLE}):
-        t = z3.Const("t", z3.SeqSort(ext_sort(sort)))
-        parts = prefix_ext(t, jj).children()
-        out.append((f"C14/data_types.py::sequences/lemma#prefix-extension-{sort.strip('_')}", [], parts[0]))
-        out.append((f"C14/data_types.py::sequences/lemma#prefix-whole-and-empty-{sort.strip('_')}", [], z3.And(parts[1:])))
     return out
 
 
